@@ -49,22 +49,23 @@ structure Env where
   colorSystem : Nat := 0
 deriving Repr
 
-/-- Code-variant flags (`true` = today's code).  `zeroWidthChild`: the non-expanding frames
+/-- Code-variant flags (`true` = rich 9.10.0 as found; all four defects are repaired in /repo — fixes a9def3a, 8879061,
+f5f2be9, f7ecf83 — and the harness passes `false` for each).  `zeroWidthChild`: the non-expanding frames
 (`Align`, `Padding(expand=False)`, `Panel(expand=False)`) render the child at its measured maximum
 even when that is 0, where `Console.render` yields nothing (pre-finding F25); `false` = the
-proposed repair `max(1, maximum)`. -/
+repair `max(1, maximum)` (fix a9def3a). -/
 structure Variant where
   zeroWidthChild : Bool := true
   /-- `Rule(align="right")` repeats `characters` `width - title - 1` TIMES instead of filling that many
   CELLS (rule.py:98), so any multi-cell `characters` pushes the title out of the rule; `false` = the
-  proposed repair (fill exactly `width - title - 1` cells). -/
+  repair (fill exactly `width - title - 1` cells; fix 8879061). -/
   ruleRightRepeat : Bool := true
   /-- `Text.rstrip_end` compares the number of CHARACTERS with the cell width (text.py:487), so a text with
-  zero-width characters that exactly fills its width loses trailing blanks; `false` = the proposed
-  repair (`cell_len(self.plain)`). -/
+  zero-width characters that exactly fills its width loses trailing blanks; `false` = the
+  repair (`cell_len(self.plain)`; fix f5f2be9). -/
   rstripCountsChars : Bool := true
   /-- `Columns(width=…)` computes `max_width // (width + padding)` columns, possibly 0, and then raises
-  `ZeroDivisionError` (F11); `false` = the proposed repair `max(1, …)`. -/
+  `ZeroDivisionError` (F11); `false` = the repair `max(1, …)` (fix f7ecf83). -/
   columnsZeroCount : Bool := true
 deriving Repr
 
@@ -224,8 +225,8 @@ def simpleChar (c : Char) : Bool :=
 /-- number of trailing U+0020 (`_re_whitespace = r"\s+$"` on a `simpleChar` string). -/
 def trailingSpaces (s : List Char) : Nat := (s.reverse.takeWhile (· == ' ')).length
 
-/-- `Text.rstrip_end(size)` (text.py:481-493): today compares the *character* count with `size`
-(`v.rstripCountsChars`); the repaired code compares the cell length. -/
+/-- `Text.rstrip_end(size)` (text.py:481-493): rich 9.10.0 as found compares the *character* count with `size`
+(`v.rstripCountsChars`); the repaired code (fix f5f2be9, what /repo contains now) compares the cell length. -/
 def rstripEnd (cw : Char → Nat) (v : Variant) (plain : List Char) (size : Int) : List Char :=
   let textLength : Int := if v.rstripCountsChars then (plain.length : Int) else (cellLen cw plain : Int)
   if textLength > size then
